@@ -137,3 +137,56 @@ pub fn tsan_batches(ctx: &Ctx, out: &mut CaseOut) {
         None => out.count("tsan.subrun_failed_inconclusive"),
     }
 }
+
+/// a property's CLI workload with the real (uninstrumented, release) binary under valgrind memcheck
+pub fn memcheck_cli(ctx: &Ctx, id: &str, out: &mut CaseOut) {
+    if Command::new("valgrind").arg("--version").output().map(|r| !r.status.success()).unwrap_or(true) {
+        out.count("memcheck.not_available_inconclusive");
+        return;
+    }
+    let logs = ctx.work_dir.join(format!("memcheck-logs-{id}"));
+    let _ = std::fs::remove_dir_all(&logs);
+    let _ = std::fs::create_dir_all(&logs);
+    let _ = crate::cli::set_mode(&logs, 0o777);
+    let exe = std::env::current_exe().unwrap();
+    let wrapper = crate::verif_root().join("tools/vg-pasfmt.sh");
+    let envs = [
+        ("VERIF_CLI_BIN", wrapper.to_string_lossy().to_string()),
+        ("VG_REAL_BIN", ctx.cli_bin.to_string_lossy().to_string()),
+        ("VG_LOG_DIR", logs.to_string_lossy().to_string()),
+        ("VERIF_BUDGET_S", "300".into()),
+    ];
+    match subrun(&exe, id, ctx, &envs, &format!("memcheck-{id}")) {
+        Some((code, _deaths, evals, _)) => {
+            let mut processes = 0u64;
+            let mut reports = 0u64;
+            let mut first = String::new();
+            if let Ok(d) = std::fs::read_dir(&logs) {
+                for e in d.flatten() {
+                    processes += 1;
+                    let t = std::fs::read_to_string(e.path()).unwrap_or_default();
+                    if !t.trim().is_empty() {
+                        reports += 1;
+                        if first.is_empty() {
+                            first = t;
+                        }
+                    }
+                }
+            }
+            out.add("memcheck.invocations", evals);
+            out.add("memcheck.processes_observed", processes);
+            out.add("memcheck.processes_with_reports", reports);
+            out.evals += processes;
+            if reports > 0 {
+                out.violate(id, "memcheck-report", format!("valgrind memcheck reported errors in {reports} of {processes} pasfmt processes; first report: {}", crate::prop::short(&first, 800)), "", None);
+            } else if processes == 0 {
+                out.count("memcheck.no_process_observed_inconclusive");
+            } else if code == 1 {
+                out.count("memcheck.subrun_reported_violation");
+            } else if code != 0 {
+                out.count("memcheck.subrun_inconclusive");
+            }
+        }
+        None => out.count("memcheck.subrun_failed_inconclusive"),
+    }
+}
